@@ -207,6 +207,12 @@ class TV:
             return r
         if isinstance(k, int):
             return self.el()
+        if isinstance(k, tuple) and k and all(x is None or isinstance(x, slice) for x in k):
+            # a[:, np.newaxis] and the like: the same elements in another shape
+            r = TV(self.trans, self.deg, True, self.kind, nonneg=self.nonneg)
+            r.dedup = self.dedup
+            r.rounded = self.rounded
+            return r
         raise Undecided(f"index {k!r} on a typed array")
 
     def abs_setitem(self, it, k, v, aug):
@@ -434,6 +440,16 @@ def typing_model(role_of):
     # pairs of elements of a typed array: each member has the element's type (three representative pairs)
     m.ext["itertools.combinations"] = lambda it, x, r=2, *a, **k: [tuple(TV.of(x).el() for _ in range(r))] * 3 if isinstance(x, TV) and isinstance(r, int) else (_ for _ in ()).throw(Undecided("itertools.combinations of a non-array"))
     m.ext["np.triu_indices"] = lambda it, *a, **k: (TV("INV", 0, True, "idx"), TV("INV", 0, True, "idx"))
+
+    def tri(it, x, k=0):
+        x = TV.of(x)
+        if x.trans == "LOC":
+            raise BadType("a triangle of location-type values filled up with zeros (the zeros do not move with c)")
+        r = TV("INV", x.deg, True, x.kind, nonneg=x.nonneg)
+        r.rounded = x.rounded
+        return r
+    m.ext["np.triu"] = tri
+    m.ext["np.tril"] = tri
     m.ext["np.tril_indices"] = m.ext["np.triu_indices"]
     m.ext["np.sum"] = lambda it, x, *a, **k: TV.of(x).sum()
     m.ext["scipy.stats.gaussian_kde"] = lambda it, x, *a, **k: KDE(TV.of(x))
@@ -559,6 +575,83 @@ def check_typing(chk, prog, LOCATION, SCALE):
 
 
 # ---------------------------------------------------------------------------------------------- D5: constant data
+class Mat:
+    """an exact 2-D array (rows of abstract scalars): what `a[:, None] - a`, np.triu and boolean-mask selection need"""
+
+    def __init__(self, rows):
+        self.rows = [list(r) for r in rows]
+
+    def __repr__(self):
+        return f"Mat{self.rows}"
+
+    @property
+    def shape(self):
+        return (len(self.rows), len(self.rows[0]) if self.rows else 0)
+
+    def abs_len(self):
+        return len(self.rows)
+
+    def abs_iter(self):
+        return [Arr(r) for r in self.rows]
+
+    def map(self, f):
+        return Mat([[f(x) for x in r] for r in self.rows])
+
+    def _with(self, other, f):
+        """element-wise with numpy broadcasting of a scalar, a 1-D array (along the columns) or another matrix (size-1 axes stretched)"""
+        n, m = self.shape
+        if isinstance(other, Arr):
+            other = Mat([other.v])
+        if isinstance(other, Mat):
+            on, om = other.shape
+            rn, rm = max(n, on), max(m, om)
+            if (n not in (1, rn)) or (on not in (1, rn)) or (m not in (1, rm)) or (om not in (1, rm)):
+                raise Raised("ValueError", "operands could not be broadcast together")
+            return Mat([[f(self.rows[i if n > 1 else 0][j if m > 1 else 0], other.rows[i if on > 1 else 0][j if om > 1 else 0]) for j in range(rm)] for i in range(rn)])
+        return Mat([[f(x, other) for x in r] for r in self.rows])
+
+    def abs_binop(self, op, other, reflected):
+        from .absint import binop
+        return self._with(other, (lambda x, y: binop(op, y, x)) if reflected else (lambda x, y: binop(op, x, y)))
+
+    def abs_compare(self, op, other, reflected):
+        from .absint import compare
+        return self._with(other, (lambda x, y: compare(op, y, x)) if reflected else (lambda x, y: compare(op, x, y)))
+
+    def abs_unary(self, op):
+        if isinstance(op, ast.Invert):
+            return self.map(lambda x: not x)
+        if isinstance(op, ast.USub):
+            from .absint import binop
+            return self.map(lambda x: binop(ast.Sub(), 0, x))
+        raise Undecided("unary op on a matrix")
+
+    def abs_getitem(self, it, k):
+        if isinstance(k, Mat) and k.shape == self.shape and all(isinstance(x, bool) for r in k.rows for x in r):
+            return Arr(x for r, mr in zip(self.rows, k.rows) for x, m in zip(r, mr) if m)          # boolean mask: the selected elements, row by row
+        if isinstance(k, tuple) and len(k) == 2 and all(isinstance(x, Arr) for x in k):
+            return Arr(self.rows[_i(i)][_i(j)] for i, j in zip(k[0].v, k[1].v))
+        if isinstance(k, tuple) and len(k) == 2 and not isinstance(k[0], (slice, Arr)) and not isinstance(k[1], (slice, Arr)) and k[0] is not None and k[1] is not None:
+            return self.rows[_i(k[0])][_i(k[1])]
+        if not isinstance(k, (tuple, slice, Arr, Mat)):
+            return Arr(self.rows[_i(k)])
+        raise Undecided(f"matrix index {k!r}")
+
+    def ravel(self, *a, **k):
+        return Arr(x for r in self.rows for x in r)
+
+    flatten = ravel
+
+    def sum(self, axis=None, **k):
+        if axis is None:
+            return self.ravel().sum()
+        if _i(axis) == 1:
+            return Arr(Arr(r).sum() for r in self.rows)
+        if _i(axis) == 0:
+            return Arr(Arr(c).sum() for c in zip(*self.rows))
+        raise Undecided(f"sum(axis={axis!r})")
+
+
 class Arr:
     """an exact 1-D array of abstract scalars (Terms over the symbol k, numbers, bools)"""
 
@@ -597,6 +690,8 @@ class Arr:
 
     def abs_binop(self, op, other, reflected):
         from .absint import binop
+        if isinstance(other, Mat):
+            return other.abs_binop(op, self, not reflected)
         o = self._zip(other)
         return Arr((binop(op, y, x) if reflected else binop(op, x, y)) for x, y in zip(self.v, o))
 
@@ -620,6 +715,10 @@ class Arr:
         raise Raised("ValueError", "truth value of an array is ambiguous")
 
     def abs_getitem(self, it, k):
+        if isinstance(k, tuple) and len(k) == 2 and k[1] is None and isinstance(k[0], slice) and k[0] == slice(None, None, None):
+            return Mat([[x] for x in self.v])                    # a[:, np.newaxis]: a column
+        if isinstance(k, tuple) and len(k) == 2 and k[0] is None and isinstance(k[1], slice) and k[1] == slice(None, None, None):
+            return Mat([list(self.v)])                           # a[np.newaxis, :]: a row
         if isinstance(k, Arr):
             if all(isinstance(x, bool) for x in k.v):
                 return Arr(x for x, m in zip(self.v, k.v) if m)
@@ -742,6 +841,8 @@ def _median(a):
 def _percentile(a, q):
     from .absint import binop
     s = _sorted_arr(a).v
+    if not s:
+        raise Raised("IndexError", "np.percentile of an empty array: index -1 is out of bounds for axis 0 with size 0")
     pos = Fr(q, 100) * (len(s) - 1)
     lo = int(pos)
     frac = pos - lo
@@ -770,8 +871,23 @@ def const_model():
 
     def np_abs(it, x):
         from .absmodel import builtin
+        if isinstance(x, Mat):
+            return x.map(builtin(it, "abs"))
         return Arr(builtin(it, "abs")(e) for e in x.v) if isinstance(x, Arr) else builtin(it, "abs")(x)
     m.ext["np.abs"] = np_abs
+    m.ext["np.absolute"] = np_abs
+    m.ext["np.fabs"] = np_abs
+
+    def np_tri(upper):
+        def f(it, x, k=0):
+            if not isinstance(x, Mat):
+                raise Undecided("np.triu / np.tril of a non-matrix")
+            k = _i(k)
+            return Mat([[v if ((j - i >= k) if upper else (j - i <= k)) else 0 for j, v in enumerate(r)] for i, r in enumerate(x.rows)])
+        return f
+    m.ext["np.triu"] = np_tri(True)
+    m.ext["np.tril"] = np_tri(False)
+    m.ext["np.subtract.outer"] = lambda it, a, b: Mat([[x] for x in a.v]).abs_binop(ast.Sub(), b, False)
 
     def np_diff(it, x):
         from .absint import binop
